@@ -1068,7 +1068,7 @@ func (c *Ctx) goroutineRules(rels []string) {
 				if why, ok := bareChanOps[key]; ok && why != "?" {
 					c.Ok("bare:"+key, f, op, "classified: %s", why)
 				} else {
-					c.Undecided("bare:"+key, f, op, "a blocking channel operation outside any select that is not in the classified table: a new unconditional blocking point must be shown to be released by Close")
+					c.Fail("bare:"+key, f, op, "a blocking channel operation outside any select that is not in the classified table: an unconditional blocking point that Close does not release keeps its goroutine (and whoever waits for it) forever")
 				}
 			}
 			// (d) tickers
@@ -1215,12 +1215,23 @@ func closeOnceRule(c *Ctx) {
 				locked := len(held) > 0 || len(c.lockEnv().heldAt(f, call)) > 0
 				// (b) !flag … flag = true
 				okFlag := false
+				flagSetButCloseSkipped := false
 				for _, a := range guards {
 					fl, isF := f.ObjOf(a.E).(*types.Var)
 					if !isF || !fl.IsField() || a.Val {
 						continue
 					}
 					for _, t := range g.edgesWhere(func(b Atom) bool { return !b.Val && f.ObjOf(b.E) == types.Object(fl) }) {
+						if g.allPathsPass(t, func(v int) bool {
+							for _, w := range Writes(g.Node(v), false) {
+								if f.ObjOf(w.LHS) == types.Object(fl) && w.RHS != nil && exprStr(w.RHS) == "true" {
+									return true
+								}
+							}
+							return false
+						}) && !g.allPathsPass(t, func(v int) bool { return v == cv }) {
+							flagSetButCloseSkipped = true
+						}
 						if g.allPathsPass(t, func(v int) bool {
 							for _, w := range Writes(g.Node(v), false) {
 								if f.ObjOf(w.LHS) == types.Object(fl) && w.RHS != nil && exprStr(w.RHS) == "true" {
@@ -1254,6 +1265,8 @@ func closeOnceRule(c *Ctx) {
 					c.Ok(key, f, call, "guarded by a not-yet flag that the branch sets, under a lock")
 				case okNil:
 					c.Ok(key, f, call, "paired with setting the field to nil (the non-nil test is made by the caller or the guard)")
+				case flagSetButCloseSkipped:
+					c.Fail(key, f, call, "the not-yet flag is set on every path of its branch, but some path leaves before this close (an error return in between): the channel is then never closed, and whoever waits on it waits for ever")
 				default:
 					c.Undecided(key, f, call, "no once-idiom recognised for this close (guards: %s; lock held: %v)", atomsString(guards), locked)
 				}
